@@ -1,7 +1,7 @@
 """C17 child process: runs the cases of one shard sequentially against the sanitised library.
 
 usage: python -m mc.props._c17_child JOB.json
-JOB = {"seed":..., "tier":..., "deep": bool, "shard": [...] | null, "cases": [...] | null, "start": i,
+JOB = {"seed":..., "tier":..., "deep": bool, "shards": [[...], ...] | null, "cases": [...] | null, "start": i,
        "skip": [group, ...], "progress": path, "result": path, "info": path}
 
 Before each case the index of the case is written to the progress file (pwrite on an open descriptor: the
@@ -47,7 +47,9 @@ def main():
     if job.get("cases") is not None:
         cases = [tuplify(c) for c in job["cases"]]
     else:
-        cases = C.FAMILIES[job["shard"][0]].gen(tuplify(job["shard"]), job["tier"])
+        cases = []
+        for sh in job["shards"]:
+            cases += C.FAMILIES[sh[0]].gen(tuplify(sh), job["tier"])
     skip = set(job.get("skip") or ())
     import gc
     gc.collect()
@@ -58,6 +60,8 @@ def main():
     findings = []
     harness = []
     ran = nontrivial = 0
+    skipped = [0]
+    famc = {}
     t0 = time.time()
     deadline = t0 + float(job.get("max_s", 1e9))
     stopped_at = None
@@ -69,6 +73,7 @@ def main():
         fam = C.FAMILIES[case[0]]
         grp = fam.group(case)
         if grp in skip:
+            skipped[0] += 1
             continue
         if time.time() > deadline:
             stopped_at = idx
@@ -98,6 +103,7 @@ def main():
                     excs[k] = [0, str(e)[:120], list(case)]
                 excs[k][0] += 1
         ran += 1
+        famc[case[0]] = famc.get(case[0], 0) + 1
         if P.TOTAL[0] != calls0:
             nontrivial += 1
         bad = C.check_canaries()
@@ -110,17 +116,26 @@ def main():
             findings.append({"idx": idx, "kind": out.split(":")[0], "detail": out})
         k = grp + "|" + out
         outcomes[k] = outcomes.get(k, 0) + 1
+        if ran % 1500 == 0:
+            checkpoint(job, P, idx + 1, ran, nontrivial, famc, outcomes, excs, findings, harness, len(cases), t0, True, None, skipped[0])
     wd[0] = None
     os.pwrite(pfd, b"%-15s\n" % b"done", 0)
     os.close(pfd)
+    checkpoint(job, P, len(cases) if stopped_at is None else stopped_at, ran, nontrivial, famc, outcomes, excs, findings,
+               harness, len(cases), t0, False, stopped_at, skipped[0])
+
+
+def checkpoint(job, P, next_idx, ran, nontrivial, famc, outcomes, excs, findings, harness, total, t0, partial, stopped_at=None, skipped=0):
+    """complete result, or (partial) what is known so far - read by the parent if the process dies later"""
     declared = {lib: sorted(v) for lib, v in P.DECLARED.items()}
-    res = {"ran": ran, "nontrivial": nontrivial, "tier": job["tier"], "seed": job["seed"], "total": len(cases), "outcomes": outcomes, "exceptions": excs, "findings": findings,
+    res = {"ran": ran, "nontrivial": nontrivial, "tier": job["tier"], "seed": job["seed"], "total": total, "fam_counts": famc,
+           "outcomes": outcomes, "exceptions": excs, "findings": findings, "next_idx": next_idx, "skipped": skipped,
            "harness": harness[:5], "counts": P.counts(), "declared": declared, "deep_stats": P.STATS,
            "stopped_at": stopped_at, "wall": round(time.time() - t0, 2)}
-    tmp = job["result"] + ".tmp"
-    with open(tmp, "w") as fh:
+    path = job["result"] + (".partial" if partial else "")
+    with open(path + ".tmp", "w") as fh:
         json.dump(res, fh)
-    os.replace(tmp, job["result"])
+    os.replace(path + ".tmp", path)
 
 
 if __name__ == "__main__":
